@@ -429,7 +429,7 @@ func runLedCase(c jLedCase) (res jLedResult) {
 			}
 		}
 		return true
-	}, 1500*time.Millisecond)
+	}, 3*time.Second)
 	var last *orgbFrame
 	res.Frames, last, res.Conns, res.SrvErrs = srv.snapshot()
 	res.FinalRed = red != nil && last != nil && red.Seq == last.Seq
